@@ -950,16 +950,55 @@ class SymRatio:
             # num/den op n2/d  <=>  num*d op n2*den   (den, d > 0)
             return fn(self.num * d, n2 * self.den)
 
+    def _common(self, o):
+        """(self_num, other_num, den) over a common denominator (exact)"""
+        try:
+            return self.num, self._other(o), self.den
+        except (_Rescale, Unsupported):
+            if type(o) is SymRatio:
+                od, on = o.den, o.num
+            elif type(o) is _float and o != _int(o):
+                on, od = o.as_integer_ratio()
+            else:
+                raise
+            g = math.gcd(self.den, od)
+            den = self.den // g * od
+            if den > 2 ** 40:
+                raise Unsupported("ratio arithmetic: common denominator too large")
+            return self.num * (den // self.den), on * (den // od), den
+
     def __add__(self, o):
-        return _ratio(self.num + self._other(o), self.den)
+        a, b, den = self._common(o)
+        return _ratio(a + b, den)
 
     __radd__ = __add__
 
     def __sub__(self, o):
-        return _ratio(self.num - self._other(o), self.den)
+        a, b, den = self._common(o)
+        return _ratio(a - b, den)
 
     def __rsub__(self, o):
-        return _ratio(self._other(o) - self.num, self.den)
+        a, b, den = self._common(o)
+        return _ratio(b - a, den)
+
+    def __divmod__(self, o):
+        """divmod(num/den, k) for a constant integral k > 0: (floor quotient, remainder), both float-typed"""
+        lo_, k, vo, fo = _parts(o)
+        if lo_ or k <= 0:
+            raise Unsupported("divmod of a ratio by a symbolic or non-positive divisor")
+        q = self.num // (self.den * k)
+        r = _ratio(self.num - q * (self.den * k), self.den)
+        if type(q) is SymInt:
+            q = SymInt(q.lin, q.c, q.v, True)
+        else:
+            q = _float(q)
+        return q, r
+
+    def __floordiv__(self, o):
+        return self.__divmod__(o)[0]
+
+    def __mod__(self, o):
+        return self.__divmod__(o)[1]
 
     def __mul__(self, o):
         lo_, c, v, f = _parts(o)
